@@ -188,3 +188,28 @@ def c04_docs_sequence(e):
     except MarkupError:
         pass
     return _doc_ok(ks2)
+
+
+# --- escape() round trip with line breaks inside brackets (P) -------------------------------------------------------------------
+_NL_ALPHA = "[]/a\n\\"
+
+
+@symx("C04-a-escape-roundtrip-newlines", timeout=900, kind="P", functions=F_MK,
+      bounds="every string of length 0..5 over %r (solver-enumerated, native): render(escape(s)) has plain text s and no spans, and - "
+             "when s does not end in a backslash and every '[' is closed by a later ']' - also between complete markup "
+             "'[bold]x[/bold]' + escape(s) + '[italic]y[/]' the text s comes back verbatim and unstyled" % (_NL_ALPHA,),
+      outside="longer strings; other characters (C04-a/b cover the alphabet without the line break symbolically)")
+def c04_escape_newlines(e):
+    from rich.markup import escape
+    n = int(e.mk("len", 0, 5))
+    s = "".join(_NL_ALPHA[int(e.mk("c%d" % i, 0, len(_NL_ALPHA) - 1))] for i in range(n))
+    t = render(escape(s), emoji=False)
+    if t.plain != s or t.spans:
+        return False
+    closed = all("]" in s[i:] for i, ch in enumerate(s) if ch == "[")
+    if s.endswith("\\") or not closed:
+        return True
+    t = render("[bold]x[/bold]" + escape(s) + "[italic]y[/]", emoji=False)
+    if t.plain != "x" + s + "y":
+        return False
+    return all(not (sp.start < 1 + len(s) and sp.end > 1) for sp in t.spans)
